@@ -17,6 +17,7 @@ case "$FAKE_MODE" in
   theorem) answer Theorem ;;
   none) echo "% no status today" ;;
   crash) echo "Segmentation fault" >&2; exit 139 ;;
+  multi:*) IFS=, read -ra ws <<< "${FAKE_MODE#multi:}"; for w in "${ws[@]}"; do echo "% SZS status $w for anthem_problem"; done ;;
   garbage) printf '\377\376\375 not utf-8\n' ;;
   garbageunless:*) if grep -q "${FAKE_MODE#garbageunless:}" "$f"; then answer Theorem; else printf '\377\376 not utf-8\n'; fi ;;
   status:*) answer "${FAKE_MODE#status:}" ;;
@@ -69,6 +70,8 @@ pub fn check(deep: bool, st: &mut PStats, fails: &mut Vec<Failure>) {
     for s in ["CounterSatisfiable", "ContradictoryAxioms", "Satisfiable", "Timeout", "MemoryOut", "GaveUp", "Unknown", "Error", "EquivalentTheorem", "WeakerTheorem", "NoTheorem", "Theorem_", "theorem", "Unsatisfiable", "CounterTheorem", "User", "ResourceOut", "Inappropriate", "TheoremX"] {
         modes.push((format!("status:{s}"), false));
     }
+    // several status lines in one run: a run that printed another status is not a proof, whatever else it printed
+    for m in ["multi:Timeout,Theorem", "multi:GaveUp,Theorem", "multi:Banana,Theorem", "multi:CounterSatisfiable,Theorem,Theorem"] { modes.push((m.to_string(), false)); }
     // the last problem only: all earlier answers are Theorem
     modes.push(("unless:_1,=GaveUp".into(), false));
     for (ti, (flags, files)) in tasks.iter().enumerate() {
